@@ -78,6 +78,8 @@ _KANI_STATUS = {'package': 'vk-status', 'harness': 'status_try_from_total_and_do
 UNITS['c10'] = {
     'template': 'contracts/c10.vrs',
     'mutants': [
+        ('known_import_edge_to_root', 'graph.add_edge(*m, n, ());', 'graph.add_edge(*m, root, ());', ['C10.']),
+        ('deps_records_importer', 'deps.insert(import, m);', 'deps.insert(import, n);', ['C10.']),
         ('edge_flipped_new', 'graph.add_edge(m, n, ());', 'graph.add_edge(n, m, ());', ['C10.']),
         ('edge_flipped_known', 'graph.add_edge(*m, n, ());', 'graph.add_edge(n, *m, ());', ['C10.']),
         ('deps_not_recorded', 'deps.insert(import, m);', '', ['C10.']),
